@@ -31,9 +31,33 @@ theorem mapM_prefix_error {α β ε} (f : α → Except ε β) : ∀ (l1 : List 
     rw [List.cons_append, List.mapM_cons, hr, mapM_prefix_error f l1 a l2 e (fun x hx => h x (by simp [hx])) ha]
     rfl
 
+theorem mapM_ok_each {α β ε} (f : α → Except ε β) : ∀ (l : List α) (r : List β), l.mapM f = .ok r →
+    ∀ b ∈ l, ∃ x, f b = .ok x
+  | [], _, _, b, hb => by cases hb
+  | a :: l, r, h, b, hb => by
+    rw [List.mapM_cons] at h
+    cases ha : f a with
+    | error e => rw [ha] at h; cases h
+    | ok x =>
+      rw [ha] at h
+      cases hl : l.mapM f with
+      | error e => rw [hl] at h; cases h
+      | ok r' =>
+        cases hb with
+        | head => exact ⟨x, ha⟩
+        | tail _ hb' => exact mapM_ok_each f l r' hl b hb'
+
+theorem forall₂_of_each {α β} {R : α → β → Prop} : ∀ (l : List α), (∀ a ∈ l, ∃ b, R a b) → ∃ l', Forall₂ R l l'
+  | [], _ => ⟨[], .nil⟩
+  | a :: l, h => by
+    obtain ⟨b, hb⟩ := h a (by simp)
+    obtain ⟨l', hl'⟩ := forall₂_of_each l (fun x hx => h x (by simp [hx]))
+    exact ⟨b :: l', .cons hb hl'⟩
+
 /-- **C15 at the outermost level of the model**: under a policy with the checked hash, after an `update`
     that succeeded, a call whose first unregistered virtual argument (passed by reference, at any position,
-    after any number of registered or non-virtual arguments) has a type id that no registered class
+    after any number of non-virtual arguments and of registered ones, the latter passed by reference or as
+    `virtual_ptr`s made on the spot, whatever the static class) has a type id that no registered class
     carries is reported as `unknown_class` with that id — the lookups stop there: no table is read, no
     definition runs -/
 theorem C15_call_reports_unknown_class (s s' : PState) (mults rest : List UInt64)
@@ -43,7 +67,7 @@ theorem C15_call_reports_unknown_class (s s' : PState) (mults rest : List UInt64
     (hchk : s.cfg.hash = .checked) (hmap : s.cfg.vptrMap = false)
     (c : Compiled) (hc : s'.compiled = some c)
     (key mi : Nat) (m : MethodC) (hfind : (List.zipIdx c.methods).find? (fun e => e.1.key == key) = some (m, mi))
-    (pre post : List (Kind × Nat)) (id : Nat) (hstatic : s'.staticId = 0)
+    (pre post : List (Kind × Nat)) (id : Nat)
     (hpre : ∀ a ∈ pre, a.1.isVirtual = true → ∃ ci, a.2 ∈ c.graph.ids ci)
     (hid : id < 2 ^ 64 - 1) (hunreg : ∀ ci, id ∉ c.graph.ids ci) :
     s'.callWith key (pre ++ (Kind.virt, id) :: post) .ref [] = .raised (.unknownClass id) := by
@@ -125,34 +149,18 @@ theorem C15_call_reports_unknown_class (s s' : PState) (mults rest : List UInt64
   have hmapM : (List.zipIdx (pre ++ (Kind.virt, id) :: post)).mapM (s'.argLookup inst .ref []) = .error (.unknownClass id) := by
     rw [List.zipIdx_append, List.zipIdx_cons]
     apply mapM_prefix_error
-    · rintro ⟨⟨kd, id'⟩, pos⟩ hb
-      have hmemb : (kd, id') ∈ pre := by
-        have := List.mem_zipIdx_iff_getElem?.mp hb
-        exact List.mem_of_getElem? this
-      cases kd with
-      | nonvirt => exact ⟨_, rfl⟩
-      | virt =>
-        obtain ⟨ci, hci⟩ := hpre (Kind.virt, id') hmemb rfl
-        have hl := hlook ci _ id' (by
-          simp only [ids, List.getElem?_map, List.getElem?_range (hidkey id' ci hci).2.1, Option.map_some]) hci
-        exact ⟨(Kind.virt, inst.vptr.get ci), by simp only [PState.argLookup, hl, slotVptr, bind, Except.bind, pure, Except.pure]⟩
-      | vptr =>
-        obtain ⟨ci, hci⟩ := hpre (Kind.vptr, id') hmemb rfl
-        have hgetids : ids[ci]? = some (c.graph.ids ci) := by
-          simp only [ids, List.getElem?_map, List.getElem?_range (hidkey id' ci hci).2.1, Option.map_some]
-        have hl := hlook ci _ id' hgetids hci
-        have hfv := lookupForVptr_of_lookup _ _ _ _ hl
-        have hk := hkeys ci _ id' hgetids hci
-        have hmk : ∃ vp v, s'.mkVPtr id' = .ok vp ∧ s'.derefVPtr inst vp = .ok v := by
-          unfold PState.mkVPtr
-          simp only [hstatic, bne_self_eq_false, Bool.and_false, Bool.false_eq_true, if_false, hfv]
-          by_cases hind : s'.cfg.indirect = true
-          · simp only [hind, if_true]
-            exact ⟨_, inst.vptr.get ci, rfl, by simp only [PState.derefVPtr, PState.cellSlot, hc, hk, slotVptr]⟩
-          · simp only [hind, Bool.false_eq_true, if_false]
-            exact ⟨_, inst.vptr.get ci, rfl, by simp only [PState.derefVPtr, bne_self_eq_false, Bool.false_eq_true, if_false, slotVptr]⟩
-        obtain ⟨vp, v, hvp, hd⟩ := hmk
-        exact ⟨(Kind.vptr, v), by simp only [PState.argLookup, List.find?_nil, hvp, hd, bind, Except.bind, pure, Except.pure]; rfl⟩
+    · -- the arguments before it are registered: their lookups succeed (`lookups_ok`)
+      have heach : ∀ x ∈ virtIds pre, ∃ ci : Nat, ∃ l : List Nat, ids[ci]? = some l ∧ x ∈ l := by
+        intro x hx
+        obtain ⟨a, ha, rfl⟩ := List.mem_map.mp hx
+        obtain ⟨hain, hav⟩ := List.mem_filter.mp ha
+        obtain ⟨ci, hci⟩ := hpre a hain hav
+        exact ⟨ci, c.graph.ids ci, by
+          simp only [ids, List.getElem?_map, List.getElem?_range (hidkey a.2 ci hci).2.1, Option.map_some], hci⟩
+      obtain ⟨cs, hcs⟩ := forall₂_of_each (virtIds pre) heach
+      obtain ⟨vargs, hv, _⟩ := lookups_ok s' inst c hc ids hlook hkeys
+        (by intro _; rw [hcfg, hmap]; simp) pre cs 0 hcs
+      exact mapM_ok_each _ _ _ hv
     · simp only [PState.argLookup, hunk, bind, Except.bind]
   unfold PState.callWith
   simp only [hc, hi', hfind, hmapM]
